@@ -713,7 +713,7 @@ func (w *World) stepCall(i int, op *Op, rec *OpRec) {
 			opts = append(opts, dig.FillProvideInfo(&info))
 		}
 		if op.Callback && f != nil {
-			opts = append(opts, dig.WithProviderCallback(w.callback(f)))
+			opts = append(opts, dig.WithProviderCallback(w.callback(f, op.CbPanic)))
 		}
 		err, pan = guarded(func() error { return w.scopeProvide(op.Scope, fnv, opts...) })
 		if op.Info {
@@ -729,7 +729,7 @@ func (w *World) stepCall(i int, op *Op, rec *OpRec) {
 			opts = append(opts, dig.FillDecorateInfo(&info))
 		}
 		if op.Callback && f != nil {
-			opts = append(opts, dig.WithDecoratorCallback(w.callback(f)))
+			opts = append(opts, dig.WithDecoratorCallback(w.callback(f, op.CbPanic)))
 		}
 		err, pan = guarded(func() error { return w.scopeDecorate(op.Scope, fnv, opts...) })
 		if op.Info {
@@ -778,12 +778,22 @@ func (w *World) stepCall(i int, op *Op, rec *OpRec) {
 	}
 }
 
-func (w *World) callback(f *Fn) dig.Callback {
+// InjCbPanic is the value a callback panics with (Op.CbPanic).
+type InjCbPanic struct{ Fn int }
+
+func (w *World) callback(f *Fn, panics bool) dig.Callback {
 	return func(ci dig.CallbackInfo) {
 		w.cbSeen[f.ID]++
 		w.logf("    callback f%d name=%s err=%v runtime=%v", f.ID, ci.Name, ci.Error, ci.Runtime)
 		if w.mon != nil {
 			w.mon.onCallback(f, ci)
+		}
+		if panics && w.cbSeen[f.ID] == 1 {
+			w.logf("    callback of f%d panics", f.ID)
+			if w.mon != nil {
+				w.mon.onCallbackPanic(f)
+			}
+			panic(&InjCbPanic{f.ID})
 		}
 	}
 }
